@@ -1,15 +1,155 @@
-"""C06  Exact synthesis is sound and complete for the requested size and basis
+"""C06  Exact synthesis is sound and complete for the requested size and basis.
 
-P: (deductive obligations for this property are added in vlib/props/C06.py as they are built)
-B: vlib/bounded/C06.py (bounded stand-in; never counted as proved)."""
+P (clause-family lemmas over all valuations, generated from the real CircuitFinderSat methods):
+   _add_exactly_one_of encodes "exactly one literal is true" (1..5 literals, arbitrary literals over distinct
+   variables); fix_gate(gate_type=t) forces the four gate-function variables to the table of OP(t) for every
+   binary gate type; fix_gate with predecessors / forbid_wire add only clauses over the documented variables.
+B: soundness and completeness against brute force incl. constraints (vlib/bounded/C06.py); solver = z3-backed shim."""
+import itertools
+import z3
+
 from .. import env
-from .common import STD_TRUSTED, STD_ASSUME, run_bounded
+from ..pyvc.values import Sym, VList, Obj, Native, Unsupported
+from ..pyvc.interp import Model
+from ..pyvc.models import Valuation, CnfView
+from ..pyvc.prove import Prover, Contract
+from ..pyvc import theory
+from ..spec import ops as S
+from .common import new_interp, finish_refuted, canary, STD_TRUSTED, STD_ASSUME, run_bounded
 
-LEVEL = 'exploration'
+LEVEL = 'other'
+CS = 'cirbo/synthesis/circuit_search.py'
+
+
+class Pool(Model):
+    """IDPool: a fresh positive integer per distinct key (injective), stable on repeated keys"""
+
+    def __init__(self):
+        self.d = {}
+
+    def m_getattr(self, it, name):
+        if name == 'id':
+            def id_(key):
+                if not isinstance(key, str):
+                    raise Unsupported('IDPool key')
+                return self.d.setdefault(key, len(self.d) + 1)
+            return Native('IDPool.id', id_)
+        raise Unsupported('IDPool.' + name)
+
+
+def finder(it, n_in, n_gates, n_out=1):
+    m = it.load_module('cirbo.synthesis.circuit_search')
+    cls = m.env['CircuitFinderSat']
+    val = Valuation()
+    sat0 = z3.Bool('sat0')
+    o = Obj(cls, {'_cnf': CnfView(val, sat0), '_vpool': Pool(), '_input_gates': VList(range(n_in)), '_number_of_gates': n_gates,
+                  '_internal_gates': VList(range(n_in, n_in + n_gates)), '_gates': VList(range(n_in + n_gates)), '_outputs': VList(range(n_out)),
+                  '_need_check_db': True, '_need_init_cnf': True, 'need_normalized': False})
+    return o, val, sat0
+
+
+class ExactlyOne(Contract):
+    relpath, qualname = CS, 'CircuitFinderSat._add_exactly_one_of'
+
+    def __init__(self, n):
+        self.n = n
+        self.name = f'_add_exactly_one_of/n{n}'
+
+    def setup(self, it, ctx):
+        o, val, sat0 = finder(it, 2, 2)
+        lits = [z3.Int(f'l{i}') for i in range(self.n)]
+        for l in lits:
+            ctx.assume(l != 0)
+        for a, b in itertools.combinations(lits, 2):
+            ctx.assume(z3.And(a != b, a != -b))
+        return [o, VList([Sym(l) for l in lits])], {}, {'o': o, 'val': val, 'sat0': sat0, 'lits': lits}
+
+    def post(self, it, ctx, result, st):
+        val = st['val']
+        tv = [val.lit(it, Sym(l)) for l in st['lits']]
+        exactly = z3.And(z3.Or(tv) if tv else z3.BoolVal(False), z3.And([z3.Not(z3.And(a, b)) for a, b in itertools.combinations(tv, 2)]))
+        yield ('exactly-one', st['o'].fields['_cnf'].sat == z3.And(st['sat0'], exactly))
+
+
+class FixGateType(Contract):
+    relpath, qualname = CS, 'CircuitFinderSat.fix_gate'
+
+    def __init__(self, t):
+        self.t = t
+        self.name = f'fix_gate/gate_type={t}'
+
+    def setup(self, it, ctx):
+        o, val, sat0 = finder(it, 2, 2)
+        gm = it.load_module('cirbo.core.circuit.gate')
+        return [o, 3], {'first_predecessor': 0, 'second_predecessor': 2, 'gate_type': gm.env[self.t]}, {'o': o, 'val': val, 'sat0': sat0}
+
+    def post(self, it, ctx, result, st):
+        o, val = st['o'], st['val']
+        pool = o.fields['_vpool'].d
+        want = [st['sat0'], val.f(pool['s_3_0_2'])]
+        for p in (0, 1):
+            for q in (0, 1):
+                want.append(val.f(pool[f'f_3_{p}_{q}']) == theory.OPz(self.t, [z3.BoolVal(bool(p)), z3.BoolVal(bool(q))]))
+        yield ('forces-table-of-OP-and-wires', o.fields['_cnf'].sat == z3.And(want), {'witness': 'fix-gate-type'})
+        yield ('db-shortcut-disabled', z3.BoolVal(o.fields['_need_check_db'] is False))
+
+
+class FixGatePred(Contract):
+    """fix_gate with one predecessor only: every pair of predecessors not containing it is excluded, nothing else"""
+    relpath, qualname = CS, 'CircuitFinderSat.fix_gate'
+
+    def __init__(self, which):
+        self.which = which
+        self.name = f'fix_gate/{which}-only'
+
+    def setup(self, it, ctx):
+        o, val, sat0 = finder(it, 2, 2)
+        return [o, 3], {self.which: 1}, {'o': o, 'val': val, 'sat0': sat0}
+
+    def post(self, it, ctx, result, st):
+        o, val = st['o'], st['val']
+        pool = o.fields['_vpool'].d
+        excl = []
+        for a, b in itertools.combinations(range(3), 2):
+            if a != 1 and b != 1:
+                excl.append(z3.Not(val.f(pool[f's_3_{a}_{b}'])))
+        yield ('excludes-exactly-pairs-without-it', o.fields['_cnf'].sat == z3.And([st['sat0']] + excl), {'witness': self.which + '-only'})
+
+
+class ForbidWire(Contract):
+    relpath, qualname, name = CS, 'CircuitFinderSat.forbid_wire', 'forbid_wire/1->3'
+
+    def setup(self, it, ctx):
+        o, val, sat0 = finder(it, 2, 2)
+        return [o, 1, 3], {}, {'o': o, 'val': val, 'sat0': sat0}
+
+    def post(self, it, ctx, result, st):
+        o, val = st['o'], st['val']
+        pool = o.fields['_vpool'].d
+        excl = [z3.Not(val.f(pool[f's_3_{min(a, 1)}_{max(a, 1)}'])) for a in range(3) if a != 1]
+        yield ('excludes-exactly-pairs-with-the-wire', o.fields['_cnf'].sat == z3.And([st['sat0']] + excl))
 
 
 def run(rep):
     quick = env.TIER != 'thorough'
     rep.trusted_base = list(STD_TRUSTED)
+    for a in STD_ASSUME:
+        rep.assume(a)
+    rep.assume('IDPool.id is injective on keys (python-sat absent; modelled); SAT solver sound and complete (z3-backed shim in the bounded layer)')
+    rep.assume('the global theorem (a model exists iff a circuit exists) and _init_default_cnf_formula as a whole are covered by the bounded stand-in (brute force over small shapes), not by P')
+    it = new_interp()
+    pv = Prover(rep, it, 'C06')
+    for n in range(1, 6):
+        pv.run_contract(ExactlyOne(n))
+    for t in S.GATE_TYPES:
+        if t in S.NARY or t in S.BINARY or t in S.CONST:
+            pv.run_contract(FixGateType(t))
+    pv.run_contract(FixGatePred('first_predecessor'))
+    pv.run_contract(FixGatePred('second_predecessor'))
+    pv.run_contract(ForbidWire())
+    a, b = z3.Bools('a b')
+    canary(rep, pv, 'C06/canary/at-most-one-is-exactly-one', [], z3.Not(z3.And(a, b)) == z3.And(z3.Or(a, b), z3.Not(z3.And(a, b))))
+    refuted = pv.discharge(env.NPROC)
+    finish_refuted(rep, pv, refuted)
     run_bounded(rep, 'C06', quick)
-    rep.extra['explanation'] = 'bounded stand-in only in this build'
+    rep.extra['explanation'] = 'clause-family lemmas proved from the real methods for all valuations; global soundness/completeness: bounded stand-in against brute force.'
